@@ -7,10 +7,32 @@ import (
 	dbsql "database/sql"
 	"time"
 
+	"github.com/jdillenkofer/pithos/internal/checksumutils"
 	"github.com/jdillenkofer/pithos/internal/storage/metadatapart/metadatastore"
+	"github.com/jdillenkofer/pithos/internal/storage/metadatapart/partstore"
 )
 
+func verifMPPart(n int) partstore.PartId {
+	b := make([]byte, 16)
+	b[5] = 7
+	b[15] = byte(n + 1)
+	id, err := partstore.NewPartIdFromBytes(b)
+	verifMust(err)
+	return *id
+}
+
+// verifStubMultipartChecksums replaces checksumutils.CalculateMultipartChecksums
+// (MD5 over decoded part ETags) under the executor.
+func verifStubMultipartChecksums(parts []checksumutils.PartChecksums, checksumType string) (checksumutils.ChecksumValues, error) {
+	e := "mp"
+	for _, p := range parts {
+		e += "|" + p.ETag
+	}
+	return checksumutils.ChecksumValues{ETag: &e}, nil
+}
+
 type verifVersion struct {
+	demoted      bool // has not been the current version after some step since it was written
 	vid          string
 	etag         string
 	seq          int // order of the last write to this version
@@ -22,6 +44,10 @@ type verifVersion struct {
 // highest operation number drawn by the symbolic steps: 4 = plain versioning
 // operations, 7 = also conditional writes/deletes (C07)
 var verifMaxOp = 4
+
+// verifExtraOps are drawn in addition to 0..verifMaxOp: 8 = multipart upload
+// completed unconditionally, 9 = completed with If-Match / If-None-Match:*
+var verifExtraOps = []int{8}
 
 type verifVersionModel struct {
 	versions []verifVersion
@@ -79,7 +105,10 @@ func verifVersionsRunFrom(prefixOps []int, steps int, checkImmutable bool, known
 		if s < len(prefixOps) {
 			op = prefixOps[s]
 		} else {
-			op = verifPick("op", 0, verifMaxOp)
+			op = verifPick("op", 0, verifMaxOp+len(verifExtraOps))
+			if op > verifMaxOp {
+				op = verifExtraOps[op-verifMaxOp-1]
+			}
 		}
 		switch op {
 		case 0: // put
@@ -168,6 +197,51 @@ func verifVersionsRunFrom(prefixOps []int, steps int, checkImmutable bool, known
 			h, herr := sms.HeadObjectVersion(verifCtx, tx, bucket, key, vid)
 			verifAssert(herr == nil && h.ETag == obj.ETag, "versioning: a version just written is not addressable by the id returned")
 			model.versions[len(model.versions)-1].lastModified = h.LastModified
+		case 8, 9: // a multipart upload of one part is completed (9: conditionally)
+			up, err := sms.CreateMultipartUpload(verifCtx, tx, bucket, key, nil, nil, nil)
+			verifAssert(err == nil, "versioning: CreateMultipartUpload failed")
+			_, err = sms.UploadPart(verifCtx, tx, bucket, key, up.UploadId, 1, metadatastore.Part{Id: verifMPPart(model.seq), ETag: "aa", Size: 1})
+			verifAssert(err == nil, "versioning: UploadPart failed")
+			cur := model.current()
+			exists := cur != nil && !cur.marker
+			var opts *metadatastore.CompleteMultipartUploadOptions
+			want := true
+			if op == 9 {
+				if verifBool("mp-if-none-match") {
+					opts = &metadatastore.CompleteMultipartUploadOptions{IfNoneMatchStar: true}
+					want = !exists
+				} else {
+					e := etags[verifPick("ifMatch", 0, 2)]
+					opts = &metadatastore.CompleteMultipartUploadOptions{IfMatchETag: &e}
+					want = exists && cur.etag == e
+				}
+			}
+			res, err := sms.CompleteMultipartUpload(verifCtx, tx, bucket, key, up.UploadId, nil, opts)
+			if !want {
+				verifAssert(err == metadatastore.ErrPreconditionFailed, "C07: conditional multipart completion succeeded although its precondition does not hold")
+				verifCover("cond-complete-rejected")
+				_, err = sms.AbortMultipartUpload(verifCtx, tx, bucket, key, up.UploadId)
+				verifAssert(err == nil, "versioning: AbortMultipartUpload failed")
+				break
+			}
+			verifAssert(err == nil, "versioning: CompleteMultipartUpload failed although its precondition holds")
+			verifCover("multipart-completed")
+			verifAssert(res.VersionID != nil, "versioning: CompleteMultipartUpload returned no version id")
+			vid := *res.VersionID
+			model.seq++
+			rowSeq := model.seq
+			if vid == "null" {
+				for _, v := range model.versions {
+					if v.vid == "null" {
+						rowSeq = v.rowSeq
+					}
+				}
+				model.remove("null")
+			}
+			model.versions = append(model.versions, verifVersion{vid: vid, etag: res.ETag, seq: model.seq, rowSeq: rowSeq})
+			h, herr := sms.HeadObjectVersion(verifCtx, tx, bucket, key, vid)
+			verifAssert(herr == nil && h.ETag == res.ETag, "versioning: a completed upload is not addressable by the version id returned")
+			model.versions[len(model.versions)-1].lastModified = h.LastModified
 		case 7: // conditional key-only delete with If-Match
 			cur := model.current()
 			exists := cur != nil && !cur.marker
@@ -200,14 +274,19 @@ func verifVersionsRunFrom(prefixOps []int, steps int, checkImmutable bool, known
 			verifSetVersioning(tx, status)
 		}
 		// ---- claims, after every step ----
+		for i := range model.versions {
+			if c := model.current(); c == nil || c.vid != model.versions[i].vid {
+				model.versions[i].demoted = true
+			}
+		}
 		for _, v := range model.versions {
 			h, err := sms.HeadObjectVersion(verifCtx, tx, bucket, key, v.vid)
 			verifAssert(err == nil, "C02: a version that was never deleted is no longer addressable by its id")
 			verifAssert(h.IsDeleteMarker == v.marker && (v.marker || h.ETag == v.etag), "C02: a version id now addresses different content")
 			if checkImmutable && !v.marker {
-				// region of the known finding: v has been superseded as current version (its row was
-				// re-saved with is_latest = 0, which refreshes updated_at = Last-Modified)
-				if !verifKnown(knownImmutable, model.current() != nil && model.current().vid != v.vid) {
+				// region of the known finding: v has at some point been superseded as current version
+				// (its row was re-saved with is_latest = 0, which refreshes updated_at = Last-Modified)
+				if !verifKnown(knownImmutable, v.demoted) {
 					verifAssert(h.LastModified.Equal(v.lastModified), "C13: Last-Modified of an existing version changed after a later operation")
 				}
 			}
